@@ -7,7 +7,7 @@
      Inv04 w                 IndexExact + duplicate-free keys for every model (+ typing side invariants)
    Hypotheses: TablesOK (facts about the specification tables), TreeFacts w (= C03's TreeInv, see
    Tree/IndexProofsBridge.v).  Known04 = finding classes (witnesses below), Pending04 = constructors whose proof is
-   not finished: OpCopy OpCopyAt OpMove OpMoveAt OpRemove OpRemoveKind OpSetItemName OpRemoveFile OpRemoveFromFile and
+   not finished: OpCopy OpCopyAt OpMove OpMoveAt OpSetItemName OpRemoveFile OpRemoveFromFile and
    OpSetCData on a SHORT-NAME element that already has text.
    [P] C04_inv_partial, C04_history_partial, C04_reachable_partial   [U] C04_lookup, C04_enumeration,
    C04_unique_paths, C04_path_concat, C04_rekey (the prefix re-keying loop of fix_identifiables). *)
